@@ -21,7 +21,9 @@ structure Sess where
 def stepOp (s : Sess) : List String → Option (Sess × String)
   | "w" :: plain :: sch => do
     let b ← hex? plain
-    let sch ← sch.mapM parseW
+    -- `e` = the transport refuses that poll with an error and takes nothing: the write ends there, which is what the
+    -- model's exhausted schedule means (state as after the last accepted byte; a later write continues from it)
+    let sch ← (sch.takeWhile (· != "e")).mapM parseW
     let r := writeAll (pollWrite aesCfb8) s.enc b sch
     some ({ s with enc := r.st }, s!"w:{r.written.length}:{Hex.encode r.accepted}")
   | ["s", secret] => do
